@@ -288,11 +288,11 @@ H("state", "c14_msg_unknown_sender_is_an_error", needs_segment=["sc_msg_head"],
   what="msg(): a sender index >= number of channel endpoints is answered with an error before the forwarding send, no panic, ControlFlow::Continue; a known index reaches the send", bounds="0..=3 endpoints, any usize sender index", functions=["state::PolicyState::msg (statements before the first .await)"], panic_prop="C14")
 H("state", "c14_msg_before_schedule_is_an_error", needs_segment=["sc_msg_head"],
   what="msg() before any schedule (no endpoints): every sender index is answered with an error, machine keeps running", bounds="0 endpoints, any usize sender index", functions=["state::PolicyState::msg (statements before the first .await)"], panic_prop="C14")
-H("state", "c14_schedule_duplicate_while_executing", needs_segment=["sc_schedule"],
+H("state", "c14_schedule_duplicate_while_executing", needs_segment=["sc_schedule", "sc_executing_ctor"],
   what="schedule() while Executing, as leader and as follower: InvalidState error, state kept, init_channel NOT called (endpoints of the running computation untouched), Continue, no second validation round", bounds="party < 3, leader/follower symbolic, state Executing", functions=["state::PolicyState::schedule (after the type check: endpoint creation, leader head up to the first RPC, follower branch)"], panic_prop="C14", stubs=[RS], est_gb=2)
 H("state", "c14_schedule_first_is_accepted", needs_segment=["sc_schedule"],
   what="counterpart: the first schedule in Init creates the endpoints once; follower -> AwaitingValidation unanswered; leader proceeds to validation", bounds="party < 3, leader/follower symbolic, state Init", functions=["state::PolicyState::schedule (same segment)"], panic_prop="C14", stubs=[RS], est_gb=3)
-H("state", "c14_validate_while_executing", needs_segment=["sc_validate"],
+H("state", "c14_validate_while_executing", needs_segment=["sc_validate", "sc_executing_ctor"],
   what="validate() while Executing: InvalidState error, state kept, Continue", bounds="any leader index in the request", functions=["state::PolicyState::validate (whole body)"], panic_prop="C14", stubs=[RS], est_gb=2)
 H("state", "c14_validate_duplicate_while_pending", needs_segment=["sc_validate"],
   what="a second validate while the first is pending (ValidateRequested): error for the second caller only, the pending one stays unanswered, state kept", bounds="any leader index in the request", functions=["state::PolicyState::validate (whole body)"], panic_prop="C14", stubs=[RS], est_gb=2)
@@ -300,7 +300,7 @@ H("state", "c14_consts_before_schedule", needs_segment=["sc_consts"],
   what="consts() in Init: InvalidState error, nothing inserted, state kept, Continue", bounds="any sender index", functions=["state::PolicyState::consts (whole body; check_consts().await -> recorder)"], panic_prop="C14", stubs=[RS], est_gb=2)
 H("state", "c14_consts_before_validation", needs_segment=["sc_consts"],
   what="consts() in ValidateRequested: InvalidState error, nothing inserted, pending validate unanswered, state kept", bounds="any sender index", functions=["state::PolicyState::consts (whole body)"], panic_prop="C14", stubs=[RS], est_gb=2)
-H("state", "c14_consts_while_executing", needs_segment=["sc_consts"],
+H("state", "c14_consts_while_executing", needs_segment=["sc_consts", "sc_executing_ctor"],
   what="consts() while Executing: InvalidState error, nothing inserted, state kept", bounds="any sender index", functions=["state::PolicyState::consts (whole body)"], panic_prop="C14", stubs=[RS], est_gb=2)
 H("state", "c16_validate_same_program", needs_segment=["sc_validate"],
   what="validate() against a scheduled follower policy, same program hash: leader equal -> Ok for both callers + Validated; leader different -> LeaderMismatch error, schedule never answered Ok, Break", bounds="leader indices < 3 symbolic on both sides", functions=["state::PolicyState::validate (whole body)"], panic_prop="C16", stubs=[RS], est_gb=3)
@@ -319,6 +319,13 @@ for _o in ("without", "with"):
       what="leader's schedule() behind the validate round: failed validate round -> caller gets ValidateFailed, no permit kept, Break; failed run round -> Break, the permit taken before the round is returned, exactly one error to the output destination if there is one, no hand-over to run(); all fine -> one permit held, Validated, Run enqueued", bounds=f"policy {_o} output destination; validate/run round results symbolic", functions=["state::PolicyState::schedule (leader branch behind the creation of the validate futures, without the statement that creates the run futures)"], panic_prop="C17", stubs=[RS], est_gb=3)
     H("state", f"c17_consts_rpc_failure_{_o}_output_destination", needs_segment=["sc_consts_task"],
       what="constants task of run(): failed constants round -> exactly one error to the output destination if there is one, and the policy ends at this party (Stop/Cancel reported, or the client not handed back) instead of InternalConstsSent as after success", bounds=f"policy {_o} output destination; round result symbolic", functions=["state::PolicyState::run (spawned constants task behind the creation of the RPC futures)"], panic_prop="C17", stubs=[RS], est_gb=3)
+
+
+# C15 (partial): cancel() against a freshly spawned MPC task, on tokio's real Notify
+H("state", "c15_cancel_before_the_mpc_task_was_polled", needs_segment=["sc_cancel_executing"],
+  what="cancel() in Executing when the MPC task has not been polled yet: cancel() does not complete / answer before the task acknowledges, and the cancel notification is still there when the task registers", bounds="one cancel, task not yet polled (the schedule the property text names); tokio::sync::Notify is the real one", functions=["state::PolicyState::cancel (arm for Executing)", "tokio::sync::Notify::{notify_one, notified}"], panic_prop="C15", est_gb=2)
+H("state", "c15_cancel_after_the_mpc_task_acknowledged", needs_segment=["sc_cancel_executing"],
+  what="counterpart: the task has sent its one notification and acknowledged; cancel() completes and answers Ok exactly once", bounds="one cancel after the acknowledgement", functions=["state::PolicyState::cancel (arm for Executing)", "tokio::sync::Notify::{notify_one, notified}"], panic_prop="C15", est_gb=1)
 
 
 def by_prefix(*prefixes, tier=None):
@@ -504,9 +511,18 @@ PROPS["C17"] = dict(
     harnesses=by_prefix("c17_"),
     segments=["sc_leader_rpcs", "sc_consts_task"],
 )
+PROPS["C15"] = dict(
+    level="model_checking",
+    level_text="Bounded model checking of one schedule point of C15 on tokio's real Notify: the arm of cancel() for state Executing, cut from the async function on every run (await = one poll, the cut stops at a pending await), run against an MPC task that has been spawned but not polled yet - cancel() neither completes nor answers Ok before the task acknowledges, and the cancel notification is not lost (the task finds it when it registers); after the acknowledgement cancel() answers Ok exactly once.",
+    level_note="Partial: ONE schedule point (cancel processed right after the MPC task was spawned - the race the property text names) and its counterpart. NOT covered: cancel in every other state and at every other point, the task side (tokio::select!), 'exactly one notification, nothing afterwards' and the permit as whole-run statements, multi-threaded runtimes. " + SEG,
+    explanation="Kani/CBMC on the Executing arm of cancel() with tokio::sync::Notify compiled in.",
+    outside="all other interleavings of cancel with the actor and the MPC task.",
+    assumptions=[FMT, TRACING, ANS, "await = one poll with a no-op waker; a pending await ends the cut (EnvTry)"],
+    harnesses=by_prefix("c15_"),
+    segments=["sc_cancel_executing"],
+)
 NOT_APPLICABLE = {
     "C12": "a property of interleavings of several parties' futures; Kani has no concurrency model and the join/scatter layer alone exhausts memory",
     "C13": "a statement about all interleavings of several tokio actors (mpsc/oneshot/Notify/Semaphore, spawn, Garble compiler) ending in one correct result each; Kani has no concurrency model, tokio mpsc cannot even be created under it (futex), and the single-handler decision points that can be cut (see C14, C16) do not add up to this liveness/result claim",
-    "C15": "cancellation races are interleavings of the actor with the spawned MPC task over tokio::sync::Notify; no single-handler statement run decides them",
     "C19": "the file variant is tempfile + BufWriter/BufReader over one shared OS file offset with seek in Drop; Kani has no file-system model",
 }
